@@ -275,3 +275,62 @@ class delay_subscription:
     def on_fire(s, out):
         out.subscribe_source(0)
         out.cancel_timer()  # the subscription replaces the (spent) timer handle in the serial disposable
+
+
+class throttle_with_mapper:
+    """the pending element is emitted when the observable its mapper returned for it first emits or completes - unless a newer
+    element arrived meanwhile (which replaces it and releases the older throttle); completion flushes the pending element; an error
+    of the source, of the mapper or of a throttle ends the sequence at once"""
+
+    def init(s):
+        s.has = False
+        s.val = None
+        s.gen = 0
+        s.term = False
+
+    def done(s):
+        return s.term
+
+    def on_next(s, out, x):
+        try:
+            d = s.mapper(x)
+        except Exception as e:
+            s.term = True
+            out.on_error(e)
+            return
+        s.has = True
+        s.val = x
+        if s.gen > 0:
+            out.dispose_previous()  # the throttle of the previous element is released
+        s.gen += 1
+        out.subscribe(d)
+
+    def fire(s, out, k):
+        # only the throttle of the newest element can still be subscribed
+        if s.has and s.gen == k:
+            out.on_next(s.val)
+        s.has = False
+
+    def throttle_next(s, out, k, _):
+        s.fire(out, k)
+
+    def throttle_completed(s, out, k):
+        s.fire(out, k)
+
+    def throttle_error(s, out, k, e):
+        s.term = True
+        out.on_error(e)
+
+    def on_error(s, out, e):
+        if s.gen > 0:
+            out.dispose_previous()
+        s.term = True
+        out.on_error(e)
+
+    def on_completed(s, out):
+        if s.gen > 0:
+            out.dispose_previous()
+        s.term = True
+        if s.has:
+            out.on_next(s.val)
+        out.on_completed()
